@@ -134,7 +134,7 @@ var notedPanics = map[string]bool{}
 func notePanic(sig, sql, cfg string) {
 	if !notedPanics[sig] {
 		notedPanics[sig] = true
-		R.Note("out of domain (see C14/C05): AcraCensor.HandleQuery panicked (%s) on %q with configuration %q", sig, sql, cfg)
+		R.Note("out of domain (see C14/C05): handler panicked (%s) on %q; context: %s", sig, sql, cfg)
 	}
 }
 
@@ -285,7 +285,7 @@ func genCensorCase(t *rapid.T) CensorCase {
 
 func TestCensorLogs(t *testing.T) {
 	R.Rule("TestCensorLogs", "marker statements (as TestRedact) through AcraCensor.HandleQuery with a configuration loaded from generated YAML (none / allow / deny with tables, patterns, queries incl. the statement itself / allowall / denyall / query_ignore / query_capture to a temp file / parse_errors_log / ignore_parse_error) at log level debug|info|warning in format plaintext|json|cef; no marker in any log entry captured while the statement is handled, nor in the query-capture file; a rejected statement may only show up in the parse-error file; non-trivial as TestRedact")
-	hx.Checks(300, 30000)
+	hx.Checks(300, 6000)
 	rapid.Check(t, func(rt *rapid.T) {
 		c := genCensorCase(rt)
 		vs, info := CheckCensor(c)
